@@ -3,4 +3,4 @@ Require Import ExtrOcamlBasic.
 Require Import XV.XsltEventsDefs XV.XsltVarsDefs XV.XsltCoreDefs.
 Extraction "extracted/xsltCore_model.ml"
   BinNums.positive BinNums.N BinNums.Z
-  machine_result machine_main sem_main result_of canon_list.
+  machine_result machine_main sem_main result_of canon_list result_tree.
